@@ -337,7 +337,8 @@ func ParseTokenParam(buf []byte, offs int, param *PTokParam,
 					// e.g.: foo;p1 bar => consider bar new param
 					param.state = paramFIN
 					// return separator pos (as expected)
-					if i >= offs+1 {
+					if i >= offs+1 && (buf[i-1] == ' ' || buf[i-1] == '\t' ||
+						buf[i-1] == '\r' || buf[i-1] == '\n') {
 						return i - 1, ErrHdrOk
 					} else {
 						return i, ErrHdrOk
@@ -486,7 +487,8 @@ func ParseTokenParam(buf []byte, offs int, param *PTokParam,
 					// e.g.: foo;p1=5 bar =>  consider bar new param
 					param.state = paramFIN
 					// return separator pos (as expected)
-					if i >= offs+1 {
+					if i >= offs+1 && (buf[i-1] == ' ' || buf[i-1] == '\t' ||
+						buf[i-1] == '\r' || buf[i-1] == '\n') {
 						return i - 1, ErrHdrOk
 					} else {
 						return i, ErrHdrOk
